@@ -40,6 +40,40 @@ def write_evidence(prop, ev):
         json.dump(ev, f, indent=1, sort_keys=True)
 
 
+def run_bounded(prop):
+    """Bounded stand-in: executable form of the contracts run on the REAL compiled code (rx/src/bounded.rs) over a fixed finite family.
+    Labelled bounded everywhere; never counted as proof."""
+    import subprocess
+    cmd = [os.path.join(VERIF, 'bin', 'rx'), 'bounded', prop]
+    env = dict(os.environ, VERIF_REPO=core.REPO)
+    t = time.time()
+    try:
+        p = subprocess.run(cmd, capture_output=True, text=True, env=env, timeout=1800)
+    except Exception as ex:
+        return dict(status='error', detail=str(ex))
+    out = p.stdout
+    m = re.search(r'^BOUNDED property=\S+ cases=(\d+) distinct=(\d+) (\w+)', out, re.M)
+    r = dict(cmd='./bin/rx bounded %s' % prop, wall_s=round(time.time() - t, 2), samples=re.findall(r'^SAMPLE (.*)$', out, re.M))
+    if p.returncode == 4:
+        r['status'] = 'none'
+    elif not m or p.returncode not in (0, 1):
+        r['status'] = 'error'
+        r['detail'] = (out + p.stderr)[-2000:]
+    else:
+        r['cases'] = int(m.group(1))
+        r['distinct'] = int(m.group(2))
+        fi = re.search(r'^FAILING-INPUT (.*)$', out, re.M)
+        r['status'] = 'fail' if (p.returncode == 1 and fi) else ('pass' if p.returncode == 0 else 'error')
+        if fi:
+            r['failing_input'] = fi.group(1)
+    return r
+
+
+BOUNDED_RULE = ('deterministic finite family of inputs in rx/src/bounded.rs (small dyadic coefficients/values so every expected number is exact in f64; '
+                'every representation shape named by the property); each case runs the REAL compiled ommx code and compares with an independent '
+                'executable form of the contract; distinct = distinct (input) tuples')
+
+
 def clause_at(text_lines, line):
     if 1 <= line <= len(text_lines):
         return text_lines[line - 1].strip()
@@ -81,6 +115,32 @@ def main():
         print('UNDECIDED property=%s reason=%s' % (prop, reason))
         if detail:
             print(detail[:6000])
+        if reason.split(':')[0] in ('lost-anchor', 'tool-limit', 'rlimit', 'tool-failure') and not os.environ.get('VERIF_NO_BOUNDED'):
+            # the code left the verifier's dialect (or budget): the deductive route gives no verdict on this tree.
+            # Fall back to the bounded stand-in on the real compiled code - labelled bounded, never counted as proved.
+            b = run_bounded(prop)
+            if b['status'] in ('pass', 'fail'):
+                ev['level'] = 'exploration'
+                ev['coverage'] = dict(evaluations=b['cases'], distinct_nontrivial=b['distinct'], rule=BOUNDED_RULE, samples=b['samples'] or ['(none recorded)'],
+                                      exhaustive=False, checker_cmd=b['cmd'], bounded=True,
+                                      explanation='BOUNDED STAND-IN ONLY. The deductive route was UNDECIDED on this tree (%s): the extracted code no longer matches the '
+                                                  'contract sidecar or exceeds the verifier. Nothing is proved by this run; the finite family of rx/src/bounded.rs was run on the real code.' % reason,
+                                      deductive_route=dict(verdict='undecided', reason=reason, detail=detail[:2000]))
+                ev['assumptions'] = ['bounded: only the finite input family was explored']
+                ev['violations'] = 1 if b['status'] == 'fail' else 0
+                ev['wall_s'] = round(time.time() - t0, 2)
+                write_evidence(prop, ev)
+                if b['status'] == 'fail':
+                    rp = os.path.join(OUT, 'replay', '%s-bounded.json' % prop)
+                    with open(rp, 'w') as f:
+                        json.dump(dict(property=prop, unit='bounded stand-in (deductive route undecided: %s)' % reason, failed_obligations=[],
+                                       witness=dict(cmd=b['cmd'], failing_input=b['failing_input']), deductive_detail=detail[:4000],
+                                       replay_cmd='./bin/check %s --replay %s' % (prop, rp)), f, indent=1)
+                    print('bounded stand-in: failing input on the real code: %s' % b['failing_input'][:1500])
+                    print('VIOLATION property=%s replay=%s' % (prop, rp))
+                    return 1
+                print('BOUNDED-STAND-IN property=%s cases=%d distinct=%d pass (deductive route undecided; bounded, NOT a proof)' % (prop, b['cases'], b['distinct']))
+                return 0
         ev['level'] = 'other'
         ev['coverage'] = dict(explanation='UNDECIDED: %s. No verdict was produced by this run (neither pass nor violation).' % reason,
                               obligations=0, discharged=0)
@@ -288,6 +348,18 @@ def main():
                 ev['violations'] = len(new_viol)
         except core.LostAnchor as e:
             return undecided('lost-anchor', str(e))
+    # bounded stand-in on the real compiled code: covers callees whose contracts are only assumed, and supplies a witness for a failed obligation
+    bounded = None
+    if not os.environ.get('VERIF_NO_BOUNDED'):
+        bounded = run_bounded(prop)
+        if bounded['status'] == 'error':
+            return undecided('broken-check:bounded-stand-in-error', bounded.get('detail', ''))
+        if bounded['status'] != 'none':
+            ev['coverage']['bounded_stand_in'] = dict(label='bounded - never counted as proved', cmd=bounded['cmd'], evaluations=bounded['cases'],
+                                                      distinct=bounded['distinct'], rule=BOUNDED_RULE, samples=bounded['samples'], status=bounded['status'],
+                                                      failing_input=bounded.get('failing_input'))
+            if bounded['status'] == 'fail' and not new_viol:
+                ev['violations'] = 1
     ev['wall_s'] = round(time.time() - t0, 2)
     write_evidence(prop, ev)
 
@@ -300,7 +372,9 @@ def main():
         for n, (uname, rs) in enumerate(by_unit.items()):
             rp = os.path.join(OUT, 'replay', '%s-%s.json' % (prop, re.sub(r'[^\w]+', '_', uname).strip('_')))
             witness = None
-            if hasattr(mod, 'witness'):
+            if bounded and bounded['status'] == 'fail':
+                witness = dict(cmd=bounded['cmd'], failing_input=bounded['failing_input'], note='found by the bounded stand-in on the real compiled code')
+            if not witness and hasattr(mod, 'witness'):
                 try:
                     witness = mod.witness(uname, rs)
                 except Exception as ex:  # a replay helper must never mask the violation
@@ -314,8 +388,20 @@ def main():
                 print('failed obligation: unit=%s (%s:%s) :: %s :: %s' % (uname, r['repo_file'], r['repo_line'], r['obligation'], r['clause'][:240]))
             print('VIOLATION property=%s replay=%s%s' % (prop, rp, '' if witness else ' no-failing-input-found'))
         return 1
-    print('OK property=%s tier=%s units=%d obligations=%d discharged=%d guards=%d wall=%.1fs' %
-          (prop, tier, len(unit_names), obligations, discharged, n_guard_fns, time.time() - t0))
+    if bounded and bounded['status'] == 'fail':
+        # every deductive obligation was discharged, yet the real compiled code fails an executable contract: a callee whose contract is only ASSUMED
+        # (or the ideal-arithmetic assumption) is broken on this input.
+        rp = os.path.join(OUT, 'replay', '%s-bounded.json' % prop)
+        with open(rp, 'w') as f:
+            json.dump(dict(property=prop, unit='bounded stand-in (all deductive obligations discharged: the failure is in an assumed callee contract or assumption)',
+                           failed_obligations=[], witness=dict(cmd=bounded['cmd'], failing_input=bounded['failing_input']),
+                           replay_cmd='./bin/check %s --replay %s' % (prop, rp)), f, indent=1)
+        print('bounded stand-in: failing input on the real code: %s' % bounded['failing_input'][:1500])
+        print('VIOLATION property=%s replay=%s' % (prop, rp))
+        return 1
+    print('OK property=%s tier=%s units=%d obligations=%d discharged=%d guards=%d%s wall=%.1fs' %
+          (prop, tier, len(unit_names), obligations, discharged, n_guard_fns,
+           (' bounded-stand-in=%d/%d' % (bounded['distinct'], bounded['cases'])) if bounded and bounded['status'] == 'pass' else '', time.time() - t0))
     return 0
 
 
